@@ -23,10 +23,12 @@ import (
 	"github.com/trustbloc/sidetree-core-go/pkg/batch/opqueue"
 	"github.com/trustbloc/sidetree-core-go/pkg/dochandler"
 	"github.com/trustbloc/sidetree-core-go/pkg/document"
+	"github.com/trustbloc/sidetree-core-go/pkg/versions/1_0/operationparser"
 	"pgregory.net/rapid"
 
 	"verifharness/kit/asm"
 	"verifharness/kit/ev"
+	"verifharness/kit/gen"
 	"verifharness/kit/hist"
 	"verifharness/kit/keys"
 	"verifharness/kit/wire"
@@ -74,6 +76,16 @@ type Case struct {
 	// ViaHandler (real handler only): submissions enter through a real DocumentHandler in front of the writer, as on
 	// a node, instead of calling Writer.Add directly
 	ViaHandler bool `json:"viaHandler,omitempty"`
+}
+
+// expiring is the node's anchor-time validator: it reports the magic window as expired.
+type expiring struct{}
+
+func (expiring) Validate(_, until int64) error {
+	if until == gen.ExpiredUntil {
+		return operationparser.ErrOperationExpired
+	}
+	return nil
 }
 
 // passDecorator leaves operations as they are (the default decorator would resolve the DID first).
@@ -208,15 +220,25 @@ func (a anchorWriter) WriteAnchor(anchor string, _ []*protocol.AnchorDocument, r
 	for _, o := range info.ExpiredOperations {
 		exp[string(o.OperationRequest)] = true
 	}
+	referenced := map[string]bool{}
+	for _, r := range refs {
+		referenced[r.UniqueSuffix] = true
+	}
 	var tail []*mop
 	for _, m := range w.inflight {
 		switch {
 		case exp[string(m.req)]:
 			w.dropped[m.id] = true
 			w.features["expired"] = true
+			if !m.expired {
+				w.fail("operation %s was discarded as expired although its anchoring window has not expired", name(m))
+			}
 		case add[string(m.req)]:
 			tail = append(tail, m)
 			w.features["deferred"] = true
+		case !referenced[m.suffix]:
+			// neither anchored (no operation reference for its suffix) nor deferred nor expired: it left the queue for good
+			w.fail("operation %s of the cut batch is neither among the anchored operation references nor deferred nor reported as expired: it is lost (anchored in 0 batches)", name(m))
 		default:
 			w.anchor[m.id]++
 		}
@@ -375,7 +397,7 @@ func newWorld(c *Case) *world {
 		p := wire.BaseProtocol()
 		p.GenesisTime = g
 		p.MaxOperationCount = c.maxFor(i)
-		v := wire.Build(p, wire.Deps{CAS: w.cas})
+		v := wire.Build(p, wire.Deps{CAS: w.cas, ParserOpts: []operationparser.Option{operationparser.WithAnchorTimeValidator(expiring{})}})
 		w.realHandler[g] = v.Handler
 		v.Handler = handler{w: w, version: g}
 		vs = append(vs, v)
@@ -408,6 +430,10 @@ func (w *world) request(s Step, id string) (operation.Type, []byte, string) {
 	sk.n++
 	next := keys.Get(keys.Ed25519, "c16-"+s.Suffix, 1+sk.n)
 	opt := hist.Opt{}
+	if s.Expired {
+		// a signed anchoring window that the node's time validator reports as expired when the batch is cut
+		opt.From, opt.Until = 1, gen.ExpiredUntil
+	}
 	u := hist.NewSigned(hist.SignedSpec{Name: "update", Type: "update", Suffix: sk.suffix, Code: asm.SHA256, Reveal: sk.upd, NextUpd: next, Markers: map[string]interface{}{id: "v"}, Opt: opt})
 	sk.upd = next
 	return operation.TypeUpdate, u.Request, sk.suffix
@@ -417,7 +443,7 @@ func (w *world) add(s Step) {
 	w.nextID++
 	id := fmt.Sprintf("op%d", w.nextID)
 	typ, req, suffix := w.request(s, id)
-	m := &mop{id: id, suffix: suffix, version: s.Version, expired: s.Expired && w.c.Handler != "real", req: req}
+	m := &mop{id: id, suffix: suffix, version: s.Version, expired: s.Expired && (w.c.Handler != "real" || typ == operation.TypeUpdate), req: req}
 	var err error
 	if w.dh != nil {
 		// the node's front door: the handler looks the version up for the given time and queues under its genesis time
